@@ -444,7 +444,7 @@ Proof.
                             [(the "e", Pattern [pl (TermReference (s "a") None (Some (CallArguments [] [NamedArgument (s "k") (NumberLiteral (s "1"))])))])]
                             None (Pattern [pl (TermReference (s "a") None (Some (CallArguments [] [NamedArgument (s "k") (NumberLiteral (s "1"))])))]) r /\
                           r = (s "end", [], [])).
-    { eexists. split; [derive | vm_compute; reflexivity]. }
+    { eexists. split; [cbv [pl t the]; derive | vm_compute; reflexivity]. }
     destruct H as (r & H & ->). exact H.
   - intros H. specialize (H (NTerm (s "a") None) (NTerm (s "b") None) (Pattern rec_body) (Pattern rec_body) eq_refl eq_refl eq_refl).
     discriminate H.
